@@ -297,7 +297,7 @@ func (g *hdGen) internalOp(c int) hdOp {
 			o.HasF, o.Flags = true, r.intn(4)
 		}
 		if r.chance(40) {
-			o.HasIC, o.InCall = true, pick(r, []int{0, 1, 5})
+			o.HasIC, o.InCall = true, pick(r, []int{0, 1, 5, 9})
 		}
 		return o
 	case 3, 4:
@@ -306,7 +306,7 @@ func (g *hdGen) internalOp(c int) hdOp {
 			o.HasF, o.Flags = true, r.intn(4)
 		}
 		if r.chance(60) {
-			o.HasIC, o.InCall = true, pick(r, []int{0, 1, 5})
+			o.HasIC, o.InCall = true, pick(r, []int{0, 1, 5, 9})
 		}
 		return o
 	case 5, 6:
